@@ -7,9 +7,11 @@ import (
 	"fmt"
 	"hash/fnv"
 	"math/rand"
+	"os"
 	"reflect"
 	"sort"
 	"strings"
+	"time"
 
 	"verif/support/refwire"
 )
@@ -29,6 +31,13 @@ func hash(b []byte) string {
 	s := sha256.Sum256(b)
 	return hex.EncodeToString(s[:8])
 }
+
+const callBudget = 20 * time.Second
+
+var (
+	slowestCall    time.Duration
+	completedCalls int
+)
 
 func init() {
 	commands["rand"] = cmdRand
@@ -84,7 +93,39 @@ func cmdRand(o *Out, p *Package, j Job) {
 		for i := 0; i < calls; i++ {
 			o.Begin(p.ID, "rand", name)
 			var out reflect.Value
-			if pan := Guard(func() { out = fn.Call(nil)[0] }); pan != "" {
+			// bounded progress: the call runs in its own goroutine; a call that has not
+			// returned after a budget that is >= 200x the slowest call completed so far
+			// is reported as non-terminating (the process then exits: the goroutine
+			// cannot be stopped); a slower environment makes it inconclusive instead
+			type callResult struct {
+				out reflect.Value
+				pan string
+			}
+			ch := make(chan callResult, 1)
+			started := time.Now()
+			go func() {
+				var r callResult
+				r.pan = Guard(func() { r.out = fn.Call(nil)[0] })
+				ch <- r
+			}()
+			var res callResult
+			select {
+			case res = <-ch:
+				if d := time.Since(started); d > slowestCall {
+					slowestCall = d
+				}
+			case <-time.After(callBudget):
+				if slowestCall*200 < callBudget {
+					o.Violation(p.ID, "rand-call-does-not-return", fmt.Sprintf("%s() has not returned after %s (call %d); the slowest of the %d calls completed before it in this process took %s: the function does not terminate", name, callBudget, i, completedCalls, slowestCall))
+				} else {
+					o.Emit(Event{Prog: p.ID, Kind: "inconclusive", Message: fmt.Sprintf("%s() exceeded the %s budget but completed calls were slow too (slowest %s)", name, callBudget, slowestCall)})
+				}
+				o.Emit(Event{Prog: p.ID, Kind: "bail", Cmd: "rand", What: name})
+				os.Exit(0)
+			}
+			completedCalls++
+			out = res.out
+			if pan := res.pan; pan != "" {
 				o.Violation(p.ID, "rand-panic:"+NormalizePanic(pan), fmt.Sprintf("%s() panicked: %s", name, pan))
 				break
 			}
